@@ -11,6 +11,7 @@ import (
 	"runtime"
 	"strings"
 	"sync"
+	"sync/atomic"
 	"time"
 
 	json "github.com/goccy/go-json"
@@ -360,6 +361,19 @@ func runC10(c *Ctx) {
 	c.CaseBudget = 70
 	c.RunCases("warm", n, func(c *Ctx, k int, rng *rand.Rand) { c10Case(c, k, rng, "norace") },
 		func(k int, rng *rand.Rand) string { return fmt.Sprint("concurrent case ", k) }, nil)
+	// programs that are not in the cache: concurrent first uses of fresh run-time types (in the
+	// copy-on-write map one goroutine's entry replaces another's), each value holding a marshaler that
+	// collects garbage and re-uses freed memory while the outer program waits
+	ngc := 3
+	if c.Thorough() {
+		ngc = 12
+	}
+	c.Chunk = 1
+	c.CaseBudget = 120
+	c.RunCases("gcprograms", ngc, func(c *Ctx, k int, rng *rand.Rand) { c10GCPrograms(c, k) },
+		func(k int, rng *rand.Rand) string {
+			return fmt.Sprint("16 goroutines, fresh run-time types with a collecting marshaler inside, case ", k)
+		}, nil)
 	// the race build
 	raceExe := os.Getenv("VERIF_HARNESS_RACE_EXE")
 	if raceExe == "" && !c.IsWorker() {
@@ -379,4 +393,68 @@ func runC10(c *Ctx) {
 	c.Chunk, c.CaseBudget, c.WorkerExe, c.WorkerEnv = 4, 120, raceExe, raceEnv
 	c.RunCases("race", nr, func(c *Ctx, k int, rng *rand.Rand) { c10Case(c, k, rng, "race") },
 		func(k int, rng *rand.Rand) string { return fmt.Sprint("race build, concurrent case ", k) }, nil)
+}
+
+// C10GCHook collects garbage and then allocates objects of the size classes opcodes live in
+type C10GCHook struct{ N int }
+
+var c10GCSink atomic.Value
+
+func (h C10GCHook) MarshalJSON() ([]byte, error) {
+	runtime.GC()
+	objs := make([]*[22]uintptr, 0, 2000)
+	for i := 0; i < 2000; i++ {
+		o := new([22]uintptr)
+		for j := range o {
+			o[j] = 0x4141414141414141
+		}
+		objs = append(objs, o)
+	}
+	c10GCSink.Store(objs)
+	return []byte(fmt.Sprintf(`{"h":%d}`, h.N)), nil
+}
+
+func c10GCPrograms(c *Ctx, k int) {
+	var mu sync.Mutex
+	var wg sync.WaitGroup
+	for g := 0; g < 16; g++ {
+		wg.Add(1)
+		go func(g int) {
+			defer wg.Done()
+			for it := 0; it < 12; it++ {
+				t := reflect.StructOf([]reflect.StructField{
+					{Name: fmt.Sprintf("I%d_%d_%d", k, g, it), Type: reflect.TypeOf((*interface{})(nil)).Elem(), Tag: `json:"i"`},
+					{Name: "A", Type: reflect.TypeOf(""), Tag: `json:"a"`},
+					{Name: "B", Type: reflect.TypeOf([]int{}), Tag: `json:"b"`},
+					{Name: "C", Type: reflect.TypeOf(map[string]int{}), Tag: `json:"c"`},
+				})
+				v := reflect.New(t).Elem()
+				v.Field(0).Set(reflect.ValueOf(C10GCHook{N: it}))
+				v.Field(1).SetString("after")
+				v.Field(2).Set(reflect.ValueOf([]int{1, 2, 3}))
+				v.Field(3).Set(reflect.ValueOf(map[string]int{"k": 1}))
+				iv := []interface{}{v.Interface()}
+				want, _ := stdjson.Marshal(iv)
+				for ei, f := range []func() ([]byte, error){
+					func() ([]byte, error) { return json.Marshal(iv) },
+					func() ([]byte, error) {
+						b, err := json.MarshalIndent(iv, "", " ")
+						var cb bytes.Buffer
+						if err == nil {
+							err = stdjson.Compact(&cb, b)
+						}
+						return cb.Bytes(), err
+					},
+				} {
+					got, err, pan := safeMarshal(f)
+					ok := pan == "" && err == nil && bytes.Equal(got, want)
+					mu.Lock()
+					c.Oracle(fmt.Sprintf("program-stays-alive/%d", ei), fmt.Sprintf("case %d goroutine %d iteration %d", k, g, it),
+						fmt.Sprintf("%s err=%s panic=%s", trunc(got), c11Err(err), pan), string(want), ok, "")
+					mu.Unlock()
+				}
+			}
+		}(g)
+	}
+	wg.Wait()
 }
